@@ -1,0 +1,35 @@
+//go:build verif
+
+package transforms32
+
+import "image"
+
+// Exports of the unexported portable kernels for the runtime-monitoring harness in /verif.
+
+// VerifGoDCT64 runs the portable 64-point kernel in place.
+func VerifGoDCT64(input []float32) { forwardDCT64(input) }
+
+// VerifGoDCT256 runs the portable 256-point kernel in place.
+func VerifGoDCT256(input []float32) { forwardDCT256(input) }
+
+// VerifGoDCT2DHash64 is the portable 2-D path of DCT2DHash64 (rows in place, low 8x8 block).
+func VerifGoDCT2DHash64(input []float32) [64]float32 {
+	var flattens [64]float32
+	for i := 0; i < 64; i++ {
+		forwardDCT64(input[i*64 : 64*i+64])
+	}
+	var row [64]float32
+	for i := 0; i < 8; i++ {
+		for j := 0; j < 64; j++ {
+			row[j] = input[64*j+i]
+		}
+		forwardDCT64(row[:])
+		for j := 0; j < 8; j++ {
+			flattens[8*j+i] = row[j]
+		}
+	}
+	return flattens
+}
+
+// VerifGoYCbCrToGray is the portable YCbCr conversion.
+func VerifGoYCbCrToGray(img *image.YCbCr, pixels []float32) { yCbCrToGrayAlt(img, pixels) }
